@@ -51,6 +51,9 @@ def plan(prop, tier, seed):
             for i in range(4):
                 runs.append((f"gen{i}", ["gen", str(seed * 1000 + i), "500", "60"]))
             runs.append(("sgen", ["sgen", str(seed), "300", "40", "any"]))
+            # entity operations issued from INSIDE lazily executed scripts (deletions, creations, dropped builders)
+            runs.append(("sgen-lazy", ["sgen", str(seed * 1000 + 7), "500", "45", "lazy"]))
+            runs.append(("sgen-lazy2", ["sgen", str(seed * 1000 + 8), "500", "45", "lazy"]))
         else:
             runs += [("exh3", ["exh", "3"]), ("exh4", ["exh", "4"])]
             for s in range(16):
@@ -63,6 +66,8 @@ def plan(prop, tier, seed):
                 runs.append((f"genlong{i}", ["gen", str(seed * 1000 + 100 + i), "40", "20000"]))
             for i in range(8):
                 runs.append((f"sgen{i}", ["sgen", str(seed * 1000 + i), "2000", "80", "any"]))
+            for i in range(8):
+                runs.append((f"sgen-lazy{i}", ["sgen", str(seed * 1000 + 50 + i), "2500", "80", "lazy"]))
     else:
         foci = spec["focus"]
         if tier == "quick":
